@@ -29,6 +29,7 @@ type scen struct {
 	gI, gR, dI, dR int
 	hello          string
 	pm             int
+	noFaults       bool // mf = 0 for this scenario
 }
 
 var allFaultKinds = []string{"flip", "trunc", "drop", "dup", "swap"}
@@ -99,7 +100,11 @@ func (p params) render() (module, cfg string, files map[string][]byte) {
 			if i > 0 {
 				mc.WriteString(",\n")
 			}
-			fmt.Fprintf(&mc, "  [gI |-> %d, gR |-> %d, dI |-> %d, dR |-> %d, hello |-> %q, pm |-> %d]", s.gI, s.gR, s.dI, s.dR, s.hello, s.pm)
+			mf := p.MaxFaults
+			if s.noFaults {
+				mf = 0
+			}
+			fmt.Fprintf(&mc, "  [gI |-> %d, gR |-> %d, dI |-> %d, dR |-> %d, hello |-> %q, pm |-> %d, mf |-> %d]", s.gI, s.gR, s.dI, s.dR, s.hello, s.pm, mf)
 		}
 		mc.WriteString("}\n====\n")
 		files = map[string][]byte{"MCV2.tla": []byte(mc.String())}
